@@ -53,8 +53,9 @@ partial def pTy : P Ty := do
   let k ← if hk = 1 then some <$> pTy else pure none
   let hv ← pNat
   let v ← if hv = 1 then some <$> pTy else pure none
+  let cpp ← pBytes
   let a ← pAnns
-  pure (.mk name k v a)
+  pure (.mk name k v cpp a)
 
 partial def pCV : P CV := do
   let t ← tok
